@@ -166,6 +166,12 @@ fn compare<const N: usize>(
         }
     };
     c.count(&format!("{}:{}", class, if lib { "accepted" } else { "rejected" }), 1);
+    // the public well-formedness predicate is the first conjunct of the relation: sigma1 != identity,
+    // nothing more (sigma2 = identity is a legitimate signature)
+    let wf_ref = atoms.b1 != crate::wire::g1_identity_bytes();
+    if sig.is_well_formed() != wf_ref {
+        c.violation(&format!("C07 is_well_formed-disagrees-with-relation N={} case={}", N, class), detail(json!({"is_well_formed": sig.is_well_formed(), "sigma1_is_identity": !wf_ref})));
+    }
     if lib != oracle {
         c.violation(&format!("C07 verify-disagrees-with-relation N={} case={}", N, class), detail(json!(lib)));
     } else if let Some(e) = expect {
